@@ -306,8 +306,10 @@ class CCAccessTokenRequest(Message):
     }
 
     def verify(self, **kwargs):
+        super(CCAccessTokenRequest, self).verify(**kwargs)
         if self["grant_type"] != "client_credentials":
             raise ValueError("Grant type MUST be client_credentials")
+        return True
 
 
 class RefreshAccessTokenRequest(Message):
@@ -533,7 +535,7 @@ class JWTSecuredAuthorizationRequest(AuthorizationRequest):
         elif "request_uri" not in self:
             raise MissingAttribute("One of request or request_uri must be present")
 
-        return True
+        return Message.verify(self, **kwargs)
 
 
 class PushedAuthorizationRequest(AuthorizationRequest):
@@ -557,7 +559,7 @@ class PushedAuthorizationRequest(AuthorizationRequest):
             self.merge(_req, "lax")
             self[_vc_name] = _req
 
-        return True
+        return Message.verify(self, **kwargs)
 
 
 class SecurityEventToken(Message):
